@@ -54,6 +54,8 @@ func LibFrame(o plan.WOpts, input []byte, chunk int) ([]byte, error) {
 	return buf.Bytes(), nil
 }
 
+func le32bytes(v uint32) []byte { return []byte{byte(v), byte(v >> 8), byte(v >> 16), byte(v >> 24)} }
+
 func encSpec(e *plan.EncPlan) ref.EncSpec {
 	s := ref.EncSpec{BlockMaxIdx: e.BS, Dependent: e.Dependent, BlockSum: e.BSum, ContentSum: e.CSum, HasSize: e.HasSize, Legacy: e.Legacy}
 	for _, b := range e.Blocks {
@@ -64,6 +66,7 @@ func encSpec(e *plan.EncPlan) ref.EncSpec {
 
 func renderHostile(h *plan.Hostile, input []byte) []byte {
 	var out []byte
+	var prev []byte
 	ipos := 0
 	for _, it := range h.Items {
 		rep := it.Rep
@@ -83,6 +86,7 @@ func renderHostile(h *plan.Hostile, input []byte) []byte {
 			for i := 0; i < rep; i++ {
 				out = append(out, it.Data...)
 			}
+			prev = it.Data
 		case "header":
 			var sz *uint64
 			if it.Has {
@@ -100,6 +104,10 @@ func renderHostile(h *plan.Hostile, input []byte) []byte {
 			out = append(out, byte(n), byte(n>>8), byte(n>>16), byte(n>>24)|0x80)
 			out = append(out, input[ipos:ipos+n]...)
 			ipos += n
+		case "sumprev":
+			// the XXH32 of the previous "bytes" item (a correct block checksum)
+			// is appended by the caller through prevBytes
+			out = append(out, le32bytes(ref.Sum(prev))...)
 		case "fill":
 			r := plan.NewRand(it.Seed)
 			for i := 0; i < it.Len; i++ {
